@@ -113,6 +113,19 @@ def run(ctx):
         cfg = l3common.rand_cfg(rng, threads=(1, 1, 2, 4))
         cfg["fuzz"] = rng.choice([0, 0, 1, 2])
         cases.append((w, cfg))
+    # reject files left by an earlier attempt (longer than the new ones) must be replaced, not written over:
+    # compared with the model byte for byte (the statement checks below would take a stale reject of a file this
+    # push does not reject for a new one, so these cases go through the model comparison only)
+    stale = []
+    for _ in range(n // 5):
+        w = l3gen.gen_workspace(rng, fail_prob=1.0)
+        junk = b"--- stale\n+++ stale\n" + b"@@ -1 +1 @@\n-old reject line\n+old reject line\n" * 40
+        for k in list(w["files"]):
+            if not k.startswith(b"store/") and rng.random() < 0.8:
+                w["files"][k + b".rej"] = (junk, 0o644)
+        stale.append((w, l3common.rand_cfg(rng, threads=(1, 2))))
+    l3common.compare(ctx, stale, "failing series over stale reject files")
+    ctx.coverage["stale_reject_cases"] = len(stale)
     cases = corpus() + cases
     reals = l3common.compare(ctx, cases, "failing series")
     bad = 0
